@@ -224,7 +224,7 @@ CLAIMS['C19'] = {
              "old types. Refute.added_module_registry_weak_refuted: without the condition on module paths the statement is FALSE (adding the parent module "
              "`a` with a type `b` rebinds `b` inside module a::b) – replayed on the implementation and recorded as an open finding. The same theorems are proved WITH vftable blocks under CaseNoGenRefs "
              "(Props/C19FrameVft.lean: added_module_frame_vft, _tight_vft, _files_vft, _o3_vft, _registry_vft; the added module may derive from old types and have "
-             "its own vftable block). On every run the frame statement is also decided on the implementation: accepted worlds are changed only outside what the observed module reaches (new "
+             "its own vftable block); removed_module_frame / changed_module_frame (Props/C19Change.lean) are the corollaries for removing or replacing an unrelated module. On every run the frame statement is also decided on the implementation: accepted worlds are changed only outside what the observed module reaches (new "
              "modules with decoy names, unreferenced types, edits and removals of unreachable items) and the observed file must stay "
              "byte-identical."),
     'note': COMMON_NOTE + "the end-to-end frame theorem is proved for the vftable-free fragment and for a module APPENDED to the case (module order independence is part of C09); removal / edits of unreachable items are decided per run only; reachability in the oracle uses unique names per world.",
